@@ -149,8 +149,15 @@ func javaFullFamily(c map[string]json.RawMessage) (interface{}, error) {
 }
 
 // C07, bad-smell pass: the files of one run, in that order (the app walks a directory lexically: o000/, o001/, ...), through the
-// real BadSmellApp; result: the per-file findings in run order (the project-level graphConnectedCall finding names no file)
-func bsRun(dir string, run []string) [][]finding {
+// real BadSmellApp; result per run position: the entry the pass produced for that file (its node, without the path) and the
+// findings that name the file.  (graphConnectedCall names no file: it is a finding about the project, and its third-party
+// implementation accumulates in a package variable; it is not compared.)
+type bsEntry struct {
+	Node     json.RawMessage
+	Findings []finding
+}
+
+func bsRun(dir string, run []string) []bsEntry {
 	tmp, err := os.MkdirTemp("", "cvbs")
 	if err != nil {
 		return nil
@@ -170,12 +177,20 @@ func bsRun(dir string, run []string) [][]finding {
 	app := bs.NewBadSmellApp()
 	nodes := app.AnalysisPath(tmp)
 	list := app.IdentifyBadSmell(nodes, nil)
-	out := make([][]finding, len(run))
+	out := make([]bsEntry, len(run))
 	for i, p := range paths {
-		out[i] = []finding{}
+		out[i] = bsEntry{Node: json.RawMessage("null"), Findings: []finding{}}
+		for _, n := range *nodes {
+			if n.FilePath == p {
+				n.FilePath = ""
+				if raw, err := json.Marshal(n); err == nil {
+					out[i].Node = raw
+				}
+			}
+		}
 		for _, m := range list {
 			if m.File == p {
-				out[i] = append(out[i], finding{"", m.Line, m.Bs, "", m.Size})
+				out[i].Findings = append(out[i].Findings, finding{"", m.Line, m.Bs, "", m.Size})
 			}
 		}
 	}
